@@ -57,6 +57,7 @@ C15StepChecks(k, e, s, t, g) ==
       BurnedFromZero(d) == k \in {"Begin", "End"} /\ DSupply(s, t, d) \prec Zero /\ DSupply(s, t, d) = DBal(s, t, "zero", d) /\ Listed(d)
       badExt == {d \in ds : ExternalDenom(s, t, d) /\ Supply(t, d) # Supply(s, d) /\ ~BurnedFromZero(d)}
       dE == DSupply(s, t, "uelys")
+      dEb == dE -- ProviderRelease(k, s, t, "uelys")     \* the supply change that is not the provider account's vesting release
       release == k = "Tx" /\ e.ok /\ e.name \in {"commitment.MsgClaimVesting", "commitment.MsgVestNow"}
       \* shares of pool p change only together with a deposit / withdrawal of the same pool
       ps == Pools(s) \cup Pools(t)
@@ -70,10 +71,12 @@ C15StepChecks(k, e, s, t, g) ==
       dV == DSupply(s, t, s.stable.shareDenom)
       dCash == (VaultCash(t) -- Don(GhostNext(k, e, s, t, g), "mod:stablestake", s.stable.depositDenom)) -- (VaultCash(s) -- Don(g, "mod:stablestake", s.stable.depositDenom))
   IN { Chk("C15", "C15.step.external_supply_constant", TRUE, badExt = {}, Bad(badExt)),
+       \* (a release is a vesting claim by its owner, or - in the begin blocker of a provider epoch - estaking's claim for the provider
+       \* reward account, ProviderRelease; a burner epoch may end in the same begin blocker, so the two are told apart)
        Chk("C15", "C15.step.native_minted_only_by_vesting_release", dE \succ Zero \/ release,
-           dE \succ Zero => (release /\ dE = DBal(s, t, e.sender, "uelys")), Str(dE)),
-       Chk("C15", "C15.step.native_burned_only_from_zero_address", dE \prec Zero,
-           dE \prec Zero => (k \in {"Begin", "End"} /\ dE = DBal(s, t, "zero", "uelys")), Str(dE)),
+           dEb \succ Zero => (release /\ dEb = DBal(s, t, e.sender, "uelys")), Str(dE)),
+       Chk("C15", "C15.step.native_burned_only_from_zero_address", dEb \prec Zero,
+           dEb \prec Zero => (k \in {"Begin", "End"} /\ dEb = DBal(s, t, "zero", "uelys")), Str(dE)),
        Chk("C15", "C15.step.pool_shares_only_against_deposits_withdrawals", \E p \in ps : DShares(p) # Zero, badShare = {}, Bad(badShare)),
        Chk("C15", "C15.step.vault_shares_only_against_deposits_withdrawals", dV # Zero,
            /\ dV \succ Zero => (TxOK(k, e, "stablestake.MsgBond") /\ dCash \succ Zero)
